@@ -5,11 +5,14 @@
      CopRun.Gen_select     : gen_select_univariate, gen_univariate_fit, gen_select_candidates, gen_init_candidates, gen_get_instance
      CopRun.Gen_gausscols  : gen_get_distribution_for_column, gen_fit_column, gen_fit_with_fallback_distribution, gen_fit_columns
    Hand-written model and deep lemmas: Cop.Model.Select, Cop.Spec.SelectProofs.
-   Every theorem below is stated on the GENERATED definitions; the first block proves them equal to the model.
+   CopRun.C05_eval (fixed text written by tools/vf/props/C05.py): uname_str, map_ctree, ref_tree and the wrappers
+   run_select / run_fit / run_candidates / run_walk / run_columns that the correspondence cases evaluate.
+   Every theorem below is stated on the GENERATED definitions; the first block proves them equal to the model,
+   the last block proves the evaluated wrappers equal to them.
    Oracles: try_fit4 (get_instance + fit + scipy kstest of one candidate), refit, instantiable, fit_dist, import_class. *)
 From Coq Require Import List Bool QArith ZArith String Lia.
 From Cop Require Import Model.Select Spec.SelectProofs.
-From CopRun Require Import Gen_classtree Gen_select Gen_gausscols.
+From CopRun Require Import C05_eval Gen_classtree Gen_select Gen_gausscols.
 Import ListNotations.
 
 (* ================================================================== *)
@@ -190,23 +193,12 @@ Qed.
 (* ================================================================== *)
 (** * 3. candidate enumeration: filters, explicit list *)
 
-Definition uname_str (n : uname) : string :=
-  match n with
-  | Univariate => "Univariate" | ScipyModel => "ScipyModel" | BetaUnivariate => "BetaUnivariate"
-  | GammaUnivariate => "GammaUnivariate" | GaussianUnivariate => "GaussianUnivariate"
-  | GaussianKDE => "GaussianKDE" | LogLaplace => "LogLaplace" | StudentTUnivariate => "StudentTUnivariate"
-  | TruncatedGaussian => "TruncatedGaussian" | UniformUnivariate => "UniformUnivariate"
-  end%string.
-
-Fixpoint map_ctree {A B} (f : A -> B) (t : ctree A) : ctree B :=
-  match t with
-  | CNode i subs => CNode (Build_class_info (f (cname i)) (cparam i) (cbound i) (cabc i)) (map (map_ctree f) subs)
-  end.
-
+(* uname_str, map_ctree and ref_tree := map_ctree uname_str repo_tree come from CopRun.C05_eval (the file the
+   correspondence cases evaluate) *)
 (* the tree extracted from the CURRENT source is the tree the library was written against: a flipped tag, a
    new / removed / re-ordered class, or a changed abstractness breaks this theorem *)
-Theorem C05_tree_is_repo_tree : gen_tree = map_ctree uname_str repo_tree.
-Proof. vm_compute. reflexivity. Qed.
+Theorem C05_tree_is_repo_tree : gen_tree = ref_tree /\ ref_tree = map_ctree uname_str repo_tree.
+Proof. split; vm_compute; reflexivity. Qed.
 
 (* soundness and completeness of the (generated) walk for EVERY class tree *)
 Theorem C05_filters_sound : forall p b t n,
@@ -385,20 +377,30 @@ Example C05_demo_columns :
 Proof. reflexivity. Qed.
 
 (* ================================================================== *)
-(** * evaluation helpers used by the correspondence cases (tools/vf/props/C05.py): candidates, column
-      labels, columns and distributions are positions in tables; dist 0 = what the name "Univariate" denotes
-      in gaussian.py, dist 1 = "GaussianUnivariate", dist 2 = any other name (never instantiable) *)
-Definition oc_fun (l : list outcome) (m : nat) : outcome := nth m l Raised.
-Definition run_select (l : list outcome) : pyobj nat :=
-  gen_select_univariate nat (oc_fun l) (seq 0 (List.length l)).
-Definition run_fit (l : list outcome) (refits : list bool) : fit_result nat :=
-  gen_univariate_fit nat (oc_fun l) (fun m => nth m refits false) (seq 0 (List.length l)).
-Definition cls_of (s : string) : nat :=
-  if String.eqb s "GaussianUnivariate" then 1%nat else if String.eqb s "Univariate" then 0%nat else 2%nat.
-Definition run_columns (inst : list bool) (fits : list (list bool)) (cfg : dist_config nat nat)
-           (items : list (nat * nat)) :=
+(** * what the correspondence cases evaluate (CopRun.C05_eval, on Model.Select) is the generated code *)
+Theorem C05_eval_select : forall l,
+  run_select l = gen_select_univariate nat (oc_fun l) (seq 0 (List.length l)).
+Proof.
+  intros. unfold run_select. rewrite C05_gen_select_univariate_is_model.
+  unfold select_univariate. rewrite select_best4_collapse. reflexivity.
+Qed.
+Theorem C05_eval_fit : forall l refits,
+  run_fit l refits = gen_univariate_fit nat (oc_fun l) (fun m => nth m refits false) (seq 0 (List.length l)).
+Proof. intros. unfold run_fit. rewrite C05_gen_univariate_fit_is_model. reflexivity. Qed.
+Theorem C05_eval_candidates : forall e p b,
+  run_candidates e p b = gen_init_candidates e p b gen_tree /\
+  (forall t, run_walk p b t = gen_select_candidates p b t).
+Proof.
+  intros. split.
+  - unfold run_candidates. rewrite C05_gen_init_candidates_is_model.
+    rewrite (proj1 C05_tree_is_repo_tree). reflexivity.
+  - intros t. unfold run_walk. rewrite C05_gen_select_candidates_is_model. reflexivity.
+Qed.
+Theorem C05_eval_columns : forall inst fits cfg items,
+  run_columns inst fits cfg items =
   gen_fit_columns nat nat (nat * nat)%type nat Nat.eqb cls_of (fun d => nth d inst false)
     (fun d c => if nth c (nth d fits []) false then Some (d, c) else None) cfg items.
+Proof. intros. unfold run_columns. rewrite C05_gen_fit_columns_is_model. reflexivity. Qed.
 
 Print Assumptions C05_argmin.
 Print Assumptions C05_all_fail.
@@ -412,3 +414,7 @@ Print Assumptions C05_fallback.
 Print Assumptions C05_fit_succeeds.
 Print Assumptions C05_pairing.
 Print Assumptions C05_fresh_instance.
+Print Assumptions C05_eval_select.
+Print Assumptions C05_eval_fit.
+Print Assumptions C05_eval_candidates.
+Print Assumptions C05_eval_columns.
